@@ -69,6 +69,9 @@ pub struct Hist {
     pub gadmin: Option<String>,
     pub members: Vec<(String, u64)>,
     pub ops: Vec<Op>,
+    /// coins attached to the splits contract's own instantiate message (denom index, amount)
+    #[serde(default)]
+    pub inst_funds: Vec<(usize, u128)>,
 }
 
 pub struct World {
@@ -106,12 +109,24 @@ fn members_msg(ms: &[(String, u64)], me: &str) -> Vec<Member> {
 }
 
 /// group first, then splits over its address.  Err(stage) tells which instantiate failed.
+fn attach(app: &mut App, funds: &[(usize, u128)]) -> Vec<cosmwasm_std::Coin> {
+    let mut v: Vec<cosmwasm_std::Coin> = vec![];
+    for (d, a) in funds {
+        chain::mint_coins(app, "creator", *a, DENOMS[*d]);
+        v.push(cosmwasm_std::coin(*a, DENOMS[*d]));
+    }
+    v.sort_by(|a, b| a.denom.cmp(&b.denom));
+    v
+}
+
 pub fn instantiate_existing(
     admin: &Option<String>,
     gadmin: &Option<String>,
     members: &[(String, u64)],
+    funds: &[(usize, u128)],
 ) -> Result<World, &'static str> {
     let mut app = chain::new_app();
+    let attached = attach(&mut app, funds);
     let gcode = app.store_code(chain::cw4_group());
     let scode = app.store_code(chain::splits());
     let me = "contract1";
@@ -127,7 +142,7 @@ pub fn instantiate_existing(
         group: sg_splits::msg::Group::Cw4Address(group.to_string()),
     };
     let splits = match crate::util::catch(|| {
-        app.instantiate_contract(scode, Addr::unchecked("creator"), &smsg, &[], "splits", Some(ADMIN.to_string()))
+        app.instantiate_contract(scode, Addr::unchecked("creator"), &smsg, &attached, "splits", Some(ADMIN.to_string()))
     }) {
         Ok(Ok(a)) => a,
         _ => return Err("splits"),
@@ -142,8 +157,10 @@ pub fn instantiate_reply(
     admin: &Option<String>,
     gadmin: &Option<String>,
     members: &[(String, u64)],
+    funds: &[(usize, u128)],
 ) -> Result<World, &'static str> {
     let mut app = chain::new_app();
+    let attached = attach(&mut app, funds);
     let gcode = app.store_code(chain::cw4_group());
     let scode = app.store_code(chain::splits());
     let me = "contract0";
@@ -158,7 +175,7 @@ pub fn instantiate_reply(
         }),
     };
     let splits = match crate::util::catch(|| {
-        app.instantiate_contract(scode, Addr::unchecked("creator"), &smsg, &[], "splits", Some(ADMIN.to_string()))
+        app.instantiate_contract(scode, Addr::unchecked("creator"), &smsg, &attached, "splits", Some(ADMIN.to_string()))
     }) {
         Ok(Ok(a)) => a,
         _ => return Err("splits"),
